@@ -1,5 +1,5 @@
 """Correspondence for the source-to-Lean translator (gen/py2lean.py) and its run-time library (lean/Asn1/PyLite.lean):
-the *translation* of a function (driver ops KTAG, KLEN, KTOBYTES, KOIDENC, KOIDDEC, KTIME, KREAL, KREALDEC, KDECLEN, KCERBOOL) and the function itself in /repo are
+the *translation* of a function (driver ops KTAG, KLEN, KTOBYTES, KOIDENC, KOIDDEC, KTIME, KREAL, KREALDEC, KDECLEN, KCERBOOL, KWRAP) and the function itself in /repo are
 run on the same arguments; the Python builtins PyLite transcribes (PYOP) are compared with CPython.
 
 A disagreement means the translator or PyLite misrepresents the code (machinery fault to repair) - it is reported as a
@@ -47,7 +47,7 @@ def _py(f, *a, **kw):
     return ('ok', r)
 
 
-def check(rep, drv, seed, n=400, which=('encodeTag', 'encodeLength', 'toBytes', 'oidEncode', 'oidDecode', 'timeCanon', 'realBin', 'realDec', 'decodeLength', 'cerBool')):
+def check(rep, drv, seed, n=400, which=('encodeTag', 'encodeLength', 'toBytes', 'oidEncode', 'oidDecode', 'timeCanon', 'realBin', 'realDec', 'decodeLength', 'cerBool', 'wrapTags')):
     """returns number of cases compared"""
     from pyasn1.codec.ber import encoder as benc, decoder as bdec
     from pyasn1.compat import integer
@@ -355,6 +355,37 @@ def check(rep, drv, seed, n=400, which=('encodeTag', 'encodeLength', 'toBytes', 
                 return ['no-value']
             impl = _py(real)
             cmp_('cerBool', 'KCERBOOL %d %s' % (len(body), ' '.join(str(b) for b in body)), impl)
+    if 'wrapTags' in which:
+        class Stub(benc.AbstractItemEncoder):
+            result = None
+
+            def encodeValue(self, value, asn1Spec, encodeFun, **options):
+                return self.result
+
+        class Obj(object):
+            pass
+        for i in range(n):
+            ntags = rng.choice([1, 1, 2, 2, 3, 4])
+            tags = []
+            for j in range(ntags):
+                cls = rng.choice([0, 0x40, 0x80, 0xC0])
+                fmt = 0x20 if j > 0 else rng.choice([0, 0x20])
+                tags.append((cls, fmt, rng.choice([0, 1, 30, 31, 127, 128, 16384, rnd_nat()])))
+            ic = rng.random() < 0.5
+            io = rng.random() < 0.5
+            ln = rng.choice([0, 0, 1, 2, 5, 126, 127, 128, 129, 255, 256, 300])
+            sub = [rng.randrange(256) for _ in range(ln)]
+            indef_ok = rng.random() < 0.7
+            dm = rng.random() < 0.5
+            ine = rng.random() < 0.4
+            st = Stub()
+            st.supportIndefLenMode = indef_ok
+            st.result = (bytes(sub) if io else tuple(sub), ic, io)
+            o = Obj()
+            o.tagSet = ptag.TagSet((), *[ptag.Tag(*t) for t in tags])
+            impl = _py(lambda: list(st.encode(o, None, None, defMode=dm, ifNotEmpty=ine)))
+            cmp_('wrapTags', 'KWRAP %d %d %d %d %d %d %s %s' % (indef_ok, ine, dm, ic, io, ntags,
+                                                           ' '.join('%d %d %d' % t for t in tags), ' '.join(map(str, sub))), impl)
     rep.count('kernel_correspondence', done)
     return done
 
